@@ -47,12 +47,12 @@ def check(run: Run) -> None:
     with run.obligation("C10.a", "K2", "map_ lifetime: erase destroys, remove only stops; stop precedes output/error erase; create returns early iff "
                         "started, builds iff absent, then bind inputs -> bind output -> start(NOW) -> observer -> sample, all before rollback.release()"):
         fa = R.fn(run, MAP, "on_erase", cls="MapNodeStorage")
-        cs = [R.Canon()(c) for c in R.calls(fa)]
+        cs = [R.Canon()(c) for c in R.acting_calls(fa)]
         run.count(1, "C10.a.on_erase")
         if cs != ["entries.destroy_at(slot)"]:
             run.finding("C10.a", "MapNodeStorage::on_erase", f"physical erase must destroy exactly the entry in that slot: {cs}", loc=MAP)
         fa = R.fn(run, MAP, "on_remove", cls="MapNodeStorage")
-        if R.calls(fa):
+        if R.acting_calls(fa):
             run.finding("C10.a", "MapNodeStorage::on_remove", "logical removal must not act from the slot callback (reconciliation stops the child)", loc=MAP)
         fa = R.fn(run, MAP, "remove_entry_at_slot")
         fl = R.flow(run, fa)
